@@ -24,6 +24,7 @@ import (
 	"path/filepath"
 	"sort"
 	"strings"
+	"syscall"
 	"time"
 
 	sql "github.com/rqlite/rqlite/v10/db"
@@ -114,8 +115,8 @@ var verifC06bNames map[*os.File]string
 var verifC06bWALHasData bool
 
 func verifC06bPathExistsWithData(p string) bool { return verifC06bWALHasData }
-func verifC06bEnsureDirExists(p string) error    { return nil }
-func verifC06bSyncDirMaybe(p string) error       { return nil }
+func verifC06bEnsureDirExists(p string) error   { return nil }
+func verifC06bSyncDirMaybe(p string) error      { return nil }
 
 func verifC06bCreate(name string) (*os.File, error) {
 	f := &os.File{}
@@ -151,9 +152,25 @@ func verifC06bFileClose(f *os.File) error {
 
 func verifC06bRemove(name string) error {
 	if _, ok := verifC06bFS[name]; !ok {
+		for n := range verifC06bFS {
+			if strings.HasPrefix(n, name+"/") {
+				// a directory that still has entries (directories exist implicitly in this model)
+				return &os.PathError{Op: "remove", Path: name, Err: syscall.ENOTEMPTY}
+			}
+		}
 		return os.ErrNotExist
 	}
 	delete(verifC06bFS, name)
+	return nil
+}
+
+// verifC06bRemoveAll: os.RemoveAll - the path itself and everything beneath it.
+func verifC06bRemoveAll(name string) error {
+	for n := range verifC06bFS {
+		if n == name || strings.HasPrefix(n, name+"/") {
+			delete(verifC06bFS, n)
+		}
+	}
 	return nil
 }
 
